@@ -38,47 +38,7 @@ impl<'a> Dfs<'a> {
             evs.push(Ev::ch('a'));
             evs.push(Ev::Bs);
         }
-        if self.lists {
-            let (p, w, t) = split_ref(&self.text, false);
-            let exp = self.avro.tr_parts(&p, &w, &t);
-            let items = r.items();
-            if !items.iter().any(|c| uncurl(c) == uncurl(&exp)) {
-                self.report.add(
-                    Violation::new("C03", "transliteration-not-a-candidate", &format!("not-a-candidate:{}", self.part))
-                        .opts(&self.ctx.opts)
-                        .events(&evs)
-                        .feat("typed", self.text.clone())
-                        .detail(format!("typed {:?}: transliteration {:?} (parts {:?}|{:?}|{:?}) is not among {:?}", self.text, exp, p, w, t, items)),
-                );
-            } else if self.text.len() == 2 {
-                self.samples.offer(|| json!({"part": self.part, "typed": self.text, "transliteration": exp, "candidates": items}));
-            }
-        } else {
-            let (p, w, t) = split_simple(&self.text);
-            let exp = self.avro.tr_parts(p, w, t);
-            let got = match r {
-                Rend::Single { text, .. } => text.clone(),
-                Rend::Empty => String::new(),
-                Rend::Full { .. } => "<list>".into(),
-            };
-            if got != exp {
-                self.report.add(
-                    Violation::new("C03", "wrong-transliteration", &format!("wrong-transliteration:{}", self.part))
-                        .opts(&self.ctx.opts)
-                        .events(&evs)
-                        .feat("typed", self.text.clone())
-                        .detail(format!("typed {:?}: got {:?}, Avro transliteration of the parts {:?}|{:?}|{:?} is {:?}", self.text, got, p, w, t, exp)),
-                );
-            } else if self.text.len() == 3 {
-                self.samples.offer(|| json!({"part": self.part, "typed": self.text, "result": got}));
-            }
-            // ANSI only changes the read-out
-            if let Rend::Single { text, pre } = r {
-                if !self.ctx.opts.ansi && pre != text {
-                    self.report.add(Violation::new("C03", "pre-edit-differs", "pre-edit-differs").opts(&self.ctx.opts).events(&evs).detail(format!("pre-edit {:?} != text {:?} without ANSI", pre, text)));
-                }
-            }
-        }
+        judge_text(self.avro, self.report, self.samples, self.part, &self.ctx.opts, &evs, &self.text, r, self.lists);
     }
     fn fail(&mut self, f: &Fail, extra: Option<Ev>) {
         let mut evs = self.hist();
@@ -144,6 +104,52 @@ impl<'a> Dfs<'a> {
     }
 }
 
+/// The oracle of C03 for one returned suggestion: `text` is what has been typed in the current word.
+#[allow(clippy::too_many_arguments)]
+fn judge_text(avro: &Avro, report: &Report, samples: &Samples, part: &str, opts: &Opts, evs: &[Ev], text: &str, r: &Rend, lists: bool) {
+        if lists {
+            let (p, w, t) = split_ref(&text, false);
+            let exp = avro.tr_parts(&p, &w, &t);
+            let items = r.items();
+            if !items.iter().any(|c| uncurl(c) == uncurl(&exp)) {
+                report.add(
+                    Violation::new("C03", "transliteration-not-a-candidate", &format!("not-a-candidate:{}", part))
+                        .opts(&opts)
+                        .events(evs)
+                        .feat("typed", text.to_string())
+                        .detail(format!("typed {:?}: transliteration {:?} (parts {:?}|{:?}|{:?}) is not among {:?}", text, exp, p, w, t, items)),
+                );
+            } else if text.len() == 2 {
+                samples.offer(|| json!({"part": part, "typed": text, "transliteration": exp, "candidates": items}));
+            }
+        } else {
+            let (p, w, t) = split_simple(&text);
+            let exp = avro.tr_parts(p, w, t);
+            let got = match r {
+                Rend::Single { text, .. } => text.clone(),
+                Rend::Empty => String::new(),
+                Rend::Full { .. } => "<list>".into(),
+            };
+            if got != exp {
+                report.add(
+                    Violation::new("C03", "wrong-transliteration", &format!("wrong-transliteration:{}", part))
+                        .opts(&opts)
+                        .events(evs)
+                        .feat("typed", text.to_string())
+                        .detail(format!("typed {:?}: got {:?}, Avro transliteration of the parts {:?}|{:?}|{:?} is {:?}", text, got, p, w, t, exp)),
+                );
+            } else if text.len() == 3 {
+                samples.offer(|| json!({"part": part, "typed": text, "result": got}));
+            }
+            // ANSI only changes the read-out
+            if let Rend::Single { text, pre } = r {
+                if !opts.ansi && pre != text {
+                    report.add(Violation::new("C03", "pre-edit-differs", "pre-edit-differs").opts(&opts).events(evs).detail(format!("pre-edit {:?} != text {:?} without ANSI", pre, text)));
+                }
+            }
+        }
+}
+
 fn strings_upto(alpha: &[char], n: usize) -> Vec<String> {
     let mut v = vec![String::new()];
     let mut i = 0;
@@ -184,18 +190,9 @@ pub fn run(report: &Report, thorough: bool) -> Evidence {
                 let prefix = &prefixes[idx / cfgs.len()];
                 // every second job reaches its configuration through update_engine from a context that was
                 // created with the four options inverted (a live context must honour the new options)
-                let mut ctx = if idx % 2 == 1 {
-                    let mut inv = o.clone();
-                    inv.psugg = !o.psugg;
-                    inv.english = !o.english;
-                    inv.smart = !o.smart;
-                    inv.ansi = !o.ansi;
-                    let mut c = Ctx::new(&inv).expect("ctx");
-                    c.apply(&Ev::Update(Box::new(o.clone()))).expect("update_engine");
-                    c
-                } else {
-                    Ctx::new(&o).expect("ctx")
-                };
+                // (driver option `via_update`: created with every boolean option inverted, then update_engine)
+                o.via_update = idx % 2 == 1;
+                let mut ctx = Ctx::new(&o).expect("ctx");
                 ctx.with_pre = !lists;
                 let mut d = Dfs { ctx, avro: &avro, report, alphabet, checked: 0, events: 0, text: String::new(), lists, samples: &samples, part: name };
                 if d.type_str(prefix) {
@@ -349,6 +346,73 @@ pub fn run(report: &Report, thorough: bool) -> Evidence {
         );
         parts.insert("P6_every_published_key".into(), json!({"keys": crate::keys::KEYS.len(), "modifiers": 3, "states": 3, "suggestions_checked": checked.load(Ordering::Relaxed) - before.0, "key_events": events.load(Ordering::Relaxed) - before.1}));
     }
+    // P8: word endings inside the history - what counts as "typed" starts again after a commit (of EVERY index of the
+    // list shown), a finish request or a ctrl-backspace. History BFS over letters, emoticon punctuation, backspace and the
+    // ending events; the harness's tracked text is part of the search state; both clauses (single string with
+    // suggestions off, "always a candidate" with them on).
+    if crate::par::part_enabled("P8") {
+        use crate::histgraph;
+        let keys: Vec<Ev> = "ak;):`.".chars().map(Ev::ch).collect();
+        let depth = if thorough { 5 } else { 4 };
+        let before = checked.load(Ordering::Relaxed);
+        let mut st_total = (0u64, 0u64);
+        let tiny = crate::drv::fixture("tiny_db");
+        for (ci, (psugg, english)) in [(false, true), (true, false), (true, true)].into_iter().enumerate() {
+            let mut o = Opts::phonetic(&tiny, "");
+            o.psugg = psugg;
+            o.english = english;
+            let st = histgraph::bfs_shadow(
+                |w| {
+                    let mut o = o.clone();
+                    o.xdg = scratch_xdg(&format!("c03-P8-{}-{}", ci, w));
+                    Ctx::new(&o).expect("ctx")
+                },
+                &std::collections::BTreeMap::new(),
+                &[],
+                depth,
+                |_h, shown, _ctx| {
+                    let mut v = keys.clone();
+                    v.push(Ev::Bs);
+                    v.push(Ev::CtrlBs);
+                    v.push(Ev::Finish);
+                    match shown {
+                        Some(Rend::Full { items, .. }) => v.extend((0..items.len()).map(Ev::Commit)),
+                        Some(Rend::Single { .. }) => v.push(Ev::Commit(0)),
+                        _ => {}
+                    }
+                    v
+                },
+                |ctx, step| {
+                    let mut h = step.hist.to_vec();
+                    h.push(step.ev.clone());
+                    match step.out {
+                        Err(f) => {
+                            report.add(fail_violation("C03", f, &ctx.opts, &h));
+                        }
+                        Ok(crate::drv::Out::Sugg(r)) => {
+                            let text = crate::props::c02::typed_text(&h);
+                            if text.is_empty() {
+                                if !r.is_empty() {
+                                    report.add(Violation::new("C03", "text-after-word-ending", "text-after-word-ending").opts(&ctx.opts).events(&h).detail(format!("nothing is typed in the current word, yet the suggestion is {}", r.to_json())));
+                                }
+                                return;
+                            }
+                            checked.fetch_add(1, Ordering::Relaxed);
+                            judge_text(&avro, report, &samples, "P8", &ctx.opts, &h, &text, r, psugg);
+                        }
+                        Ok(_) => {}
+                    }
+                },
+                |_| true,
+                |h| crate::props::c02::typed_text(h),
+            );
+            st_total.0 += st.states;
+            st_total.1 += st.transitions;
+        }
+        events.fetch_add(st_total.1, Ordering::Relaxed);
+        parts.insert("P8_word_endings_inside_the_history".into(), json!({"alphabet": "ak;):`. + backspace, ctrl-backspace, finish, commit of every index", "depth": depth, "configurations": 3, "states": st_total.0, "transitions": st_total.1, "suggestions_checked": checked.load(Ordering::Relaxed) - before}));
+    }
+
     // P7: history dependence with suggestions off: mixed alphabet (letters, brackets, full stop, colon,
     // back-tick) depth-first with backspaces, started after an earlier word in the same context
     if crate::par::part_enabled("P7") {
